@@ -61,6 +61,11 @@ def confirm(wt, k, prop):
     if not cands:
         print("cannot find demo placement in README"); return 2
     demo_rel = cands[0]
+    # a demo of the static-metric macros has to live in that crate: prefer the spelled-out path when both appear
+    for c in cands:
+        if c.startswith("static-metric/") and os.path.basename(c) == os.path.basename(demo_rel):
+            demo_rel = c
+            break
     pkg = ["-p", "prometheus-static-metric"] if demo_rel.startswith("static-metric/") else []
     test_name = os.path.basename(demo_rel)[:-3]
     release = ["--release"] if "--release" in readme else []
